@@ -464,3 +464,47 @@ def rule_O3(ctx, R):
             res.ok(f["path"])
     res.need(86, "safe functions taking guards")
     return res
+
+
+def rule_A6(ctx, R):
+    res = RuleResult("A6", "references handed out by a borrowed guard live no longer than that borrow: no safe method taking `&guard`/"
+                           "`&mut guard` returns a reference (or a type) carrying the guard's own type-level lifetime or 'static")
+    guardish = set(R.holdtypes) | R.key_carriers | R.hold_owners | {"poisonable::PoisonRef"}
+    for f in ctx.F.fns:
+        if "inputs" not in f or f.get("unsafe") or not f.get("reachable") or not f["inputs"]:
+            continue
+        t0 = f["inputs"][0]
+        if not (t0["k"] == "ref" and t0["ty"]["k"] == "adt" and t0["ty"]["path"] in guardish):
+            continue
+        # lifetimes that are parameters of the guard type itself
+        own = set(a["r"].get("name") for a in t0["ty"].get("args", []) if a["k"] == "region" and a["r"]["k"] == "early")
+        bad = None
+
+        def walk_no_alias(t):
+            yield t
+            k = t["k"]
+            if k == "adt":
+                for a in t.get("args", []):
+                    if a["k"] not in ("region", "const"):
+                        yield from walk_no_alias(a)
+            elif k in ("ref", "ptr", "array", "slice"):
+                yield from walk_no_alias(t["ty"])
+            elif k == "tuple":
+                for e in t["elems"]:
+                    yield from walk_no_alias(e)
+        for x in walk_no_alias(f["output"]):
+            regs = []
+            if x["k"] == "ref":
+                regs.append(x["region"])
+            if x["k"] == "adt":
+                regs += [a["r"] for a in x.get("args", []) if a["k"] == "region"]
+            for r in regs:
+                if r["k"] == "static" or (r["k"] == "early" and r.get("name") in own):
+                    bad = "returns %s with lifetime %s" % (f["output"]["s"], r.get("name") or "'static")
+        if bad:
+            res.bad(Violation("A6", f["path"], "outlives-guard-borrow", "%s from a borrowed guard: the value outlives the guard, and with it "
+                              "the hold that protects it" % bad, f["span"]["file"], f["span"]["line"]))
+        else:
+            res.ok(f["path"])
+    res.need(65, "safe methods of borrowed guards")
+    return res
